@@ -647,7 +647,9 @@ def setup():
         log('setup: C03 generation raised', ex); rcs.append(1)
     rc, out, dt = lake_build(['GlmVerif', 'driver'] + ['drv_' + h.lower() for h in H_PROPS], timeout=14400)
     log('setup: lake build rc=%d in %.0fs' % (rc, dt))
-    if rc != 0: print(out[-3000:])
+    if rc != 0:
+        errs = [l for l in out.split('\n') if 'error' in l.lower()]
+        print('\n'.join(errs[:40])); print(out[-3000:])
     log('setup done in %.0fs' % (time.time() - t0))
     return 1 if (rc != 0 or any(rcs)) else 0
 
